@@ -23,7 +23,8 @@
 // px.AddTypes) and as an init-hash (types.MakeObjectType + px.AddTypes); the action list is run against both and the
 // two observations must agree (class `renderings-differ`).
 //
-// Out:  `def ok|reported CODE … ; <result of A0> ; <result of A1> …`  (actions are skipped when a definition is rejected)
+// Out:  `def ok|reported CODE … ; <result of A0> ; <result of A1> … ; reinit same|differs|<ok|reported CODE …>`
+//       (actions and the re-creation of the types from their InitHash() are skipped when a definition is rejected)
 //   newpos/newnamed → `obj` | `reported CODE` | `fault`;  get → `(some VAL)` | `none`;  inithash → `(h (NAME VAL)*)`;
 //   eq / inst → `t` | `f`;  an action naming an object slot that was not created → `noobj`.
 //
@@ -1525,7 +1526,16 @@ func exec(c px.Context, op string, args []sx.Sexp) core.Result {
 				ri.act(fc, s, acts)
 			}
 		})
-		if h := ri.line(); h != out {
+		h := ri.line()
+		switch {
+		case h == out:
+			out += " ; reinit same"
+		case !ri.defOK:
+			out += " ; reinit " + strings.Join(ri.defRes, " ")
+		default:
+			out += " ; reinit differs"
+		}
+		if !strings.HasSuffix(out, " ; reinit same") {
 			class := "reinit-differs"
 			if k := len(ri.defRes) - 1; !ri.defOK && ri.defRes[k] == "reported CONSTANT_REQUIRES_VALUE" && defs[k].hasUndefConstant() {
 				// known finding C17-type-inithash-constant-undef: the InitHash of a constant of an Optional type whose
